@@ -101,6 +101,8 @@ func lenField(b []byte) string {
 }
 
 // InjectCase is C17(b): a history with a gate-failing packet injected at one index.
+var slowInjectDone bool
+
 type InjectCase struct {
 	H      *hist.History
 	At     int
@@ -110,6 +112,9 @@ type InjectCase struct {
 	Quiet bool `json:",omitempty"`
 	// OwnID: the replica is configured with the server id the master's events carry (a ring of servers)
 	OwnID bool `json:",omitempty"`
+	// DelayMs: the master pauses this long in front of the malformed packet (a replica that does something
+	// periodically gets the chance to do it on exactly that packet)
+	DelayMs int `json:",omitempty"`
 }
 
 func checkInject(c *InjectCase) error {
@@ -131,6 +136,15 @@ func checkInject(c *InjectCase) error {
 	f := Fault{Kind: "invalid", At: c.At, Sub: c.Sub}
 	var streamPanic interface{}
 	at := attempt{l: l, pacing: c.Pacing, mutate: applyFault(l, f)}
+	if c.DelayMs > 0 {
+		at.plan = &fakemaster.ConnPlan{Gate: func(i int, s *fakemaster.Step) bool {
+			if s.Tag == -9 {
+				time.Sleep(time.Duration(c.DelayMs) * time.Millisecond)
+			}
+			return true
+		}}
+		at.pacing = PaceFarAhead
+	}
 	if c.Quiet {
 		inner := at.mutate
 		at.mutate = func(steps []fakemaster.Step, evIdx []int) []fakemaster.Step {
@@ -310,6 +324,16 @@ func TestC17(t *testing.T) {
 				}
 			}
 		default: // (b) a gate-failing packet at EVERY index of a generated history
+			if thorough() && envShard == 3%envNShards && !slowInjectDone {
+				// once per thorough run: the malformed (empty) packet arrives after the dump has been idle for more than 10 s
+				slowInjectDone = true
+				c := &InjectCase{H: seqHistory([]int{0, 1, 4, 0}, 2), At: 6, Sub: 3, DelayMs: 10500}
+				rec.Case(true, c, "inject", "inject/after-10s-of-silence")
+				if err := checkInject(c); err != nil {
+					rec.Violation("c17inject", c, "", err)
+					rt.Fatalf("C17 violation: %v", err)
+				}
+			}
 			h := gen.History(rt, o)
 			l, err := h.Lay()
 			if err != nil {
